@@ -2,6 +2,7 @@ import XMT.Drv.C01
 import XMT.Drv.C02
 import XMT.Drv.C03
 import XMT.Drv.C04
+import XMT.Drv.C05
 import XMT.Drv.C06
 import XMT.Drv.C07
 import XMT.Drv.C08
@@ -23,6 +24,7 @@ def dispatch (line : String) : String :=
   | "C02" :: args => XMT.Drv.C02.handle args
   | "C03" :: args => XMT.Drv.C03.handle args
   | "C04" :: args => XMT.Drv.C04.handle args
+  | "C05" :: args => XMT.Drv.C05.handle args
   | "C06" :: args => XMT.Drv.C06.handle args
   | "C07" :: args => XMT.Drv.C07.handle args
   | "C08" :: args => XMT.Drv.C08.handle args
